@@ -126,6 +126,18 @@ class World:
         for c in crates:
             self.files[c] = mt.MirFile(c, open(os.path.join(mir_dir, c + '.mir')).read())
             if doc_dir and os.path.exists(os.path.join(doc_dir, c + '.json')): self.tt.load(c, os.path.join(doc_dir, c + '.json'))
+        # rustc prints a path through whichever `use .. as Alias` of ANY workspace crate it finds first (seen: `DiagnosticStage::other` in compiler.mir,
+        # an alias declared in the parser crate): read the renaming imports of the crates that are not loaded, too
+        if doc_dir and os.path.isdir(doc_dir):
+            import json as _json
+            for fn_ in sorted(os.listdir(doc_dir)):
+                if not fn_.endswith('.json') or fn_[:-5] in crates: continue
+                try: idx = _json.load(open(os.path.join(doc_dir, fn_)))['index']
+                except Exception: continue
+                for it in idx.values():
+                    u = it['inner'].get('use') if isinstance(it.get('inner'), dict) else None
+                    if u and u.get('name') and u.get('source') and u['name'] != u['source'].split('::')[-1] and not u.get('is_glob'):
+                        self.tt.aliases.setdefault(u['name'], u['source'].split('::')[-1])
         self.free = {}          # body name -> [(crate, name)]
         self.methods = {}       # method name -> [(crate, body name, Impl)]
         self.closures = {}      # closure span -> (crate, body name)
